@@ -121,11 +121,19 @@ def gen_pool(rng, tier, opts):
         pool.append(typical("state", name))
         state_ids.append(len(pool) - 1)
     tomos = []
+    qst_para = rng.random() < 0.5
+    n_qst = 0
     for ttype in ["qst", "qst", "povmt"] + (["qpt"] if rng.random() < 0.4 else []):
         testers = povm_ids if ttype == "qst" else (state_ids[:4] if ttype == "povmt" else state_ids[:4] + povm_ids)
-        if ttype == "qst" and rng.random() < 0.5:
-            testers = list(reversed(testers))
-        rec = {"kind": "tomo", "type": ttype, "testers": list(testers), "para": rng.random() < 0.5, "num_outcomes": 2, "eps_proj_physical": rng.choice([None, 1e-9, 1e-4]),
+        para = rng.random() < 0.5
+        if ttype == "qst":
+            # two state tomographies of the same shape (same parametrisation) whose testers come in a different order:
+            # an object that confuses them gives a permuted answer instead of an error
+            n_qst += 1
+            if n_qst == 2:
+                testers = list(reversed(testers)) if rng.random() < 0.7 else testers[1:] + testers[:1]
+            para = qst_para if rng.random() < 0.8 else para
+        rec = {"kind": "tomo", "type": ttype, "testers": list(testers), "para": para, "num_outcomes": 2, "eps_proj_physical": rng.choice([None, 1e-9, 1e-4]),
                "eps_truncate_imaginary_part": None, "born_atol": DEFAULT_ATOL}
         pool.append(rec)
         tomos.append(len(pool) - 1)
@@ -136,7 +144,21 @@ def gen_pool(rng, tier, opts):
         w = [rng.random() if rng.random() < 0.8 else 0.0 for _ in range(n)]
         if sum(w) == 0:
             w[0] = 1.0
-        pool.append({"kind": "mdist", "ps": np.array([x / sum(w) for x in w]), "shape": shape})
+        eps_zero = rng.choice([None, None, 1e-12])
+        if eps_zero is not None and n > 2:
+            w[rng.randrange(n)] = rng.choice([1e-10, 3e-9]) * sum(w)  # between the custom and the default zero threshold
+        pool.append({"kind": "mdist", "ps": np.array([x / sum(w) for x in w]), "shape": shape, "eps_zero": eps_zero})
+    # matrix bases that are orthonormal only up to a small defect (their predicates depend on the tolerance in force)
+    s2 = 1 / math.sqrt(2)
+    pauli = [s2 * np.array(m, dtype=complex) for m in ([[1, 0], [0, 1]], [[0, 1], [1, 0]], [[0, -1j], [1j, 0]], [[1, 0], [0, -1]])]
+    for _ in range(2):
+        defect = rng.choice([0.0, 1e-10, 1e-7, 1e-4])
+        mats = [m.copy() for m in pauli]
+        mats[1] = mats[1] + defect * mats[3]
+        if rng.random() < 0.3:
+            mats[2] = mats[2] * (1 + rng.choice([1e-10, 1e-5]))
+        pool.append({"kind": "basis", "mats": mats, "sparse": rng.random() < 0.4, "born_atol": DEFAULT_ATOL})
+        pool.append({"kind": "esys", "basis": len(pool) - 1, "name": 40 + len(pool), "born_atol": DEFAULT_ATOL})
     for cls in ["se", "re", "fast_se", "fast_re"]:
         pool.append({"kind": "loss", "cls": cls})
     for cls in ["pgdb", "pgdb", "pgdm", "pfista"]:
@@ -167,6 +189,7 @@ class Run:
         self.loss_history = {}  # loss id -> list of (mode_weight, dataset id)
         self.known = known_signatures("C13")
         self.generating = False
+        self._shell = None  # the previous temporary tomography object of the live world (see tomo_for)
 
     def bump(self, table, key, n=1):
         d = self.stats[table]
@@ -205,7 +228,19 @@ class Run:
             elif k == "mdist":
                 from quara.objects.multinomial_distribution import MultinomialDistribution
 
-                obj = MultinomialDistribution(np.array(r["ps"], dtype=np.float64), tuple(r["shape"]))
+                obj = MultinomialDistribution(np.array(r["ps"], dtype=np.float64), tuple(r["shape"]), eps_zero=r.get("eps_zero"))
+            elif k == "basis":
+                from quara.objects.matrix_basis import MatrixBasis, SparseMatrixBasis
+
+                mats = [np.array(m, dtype=np.complex128) for m in r["mats"]]
+                Settings.set_atol(r.get("born_atol", DEFAULT_ATOL))
+                obj = SparseMatrixBasis(mats) if r.get("sparse") else MatrixBasis(mats)
+            elif k == "esys":
+                from quara.objects.elemental_system import ElementalSystem
+
+                b = self.build_entry(r["basis"], fresh_cache, live)
+                Settings.set_atol(r.get("born_atol", DEFAULT_ATOL))
+                obj = ElementalSystem(r["name"], b)
             else:
                 raise ValueError(k)
         finally:
@@ -229,6 +264,8 @@ class Run:
                 snap[i] = digest(obj)
             elif k == "mdist":
                 snap[i] = digest([np.array(obj.ps), list(obj.shape)])
+            elif k == "basis":
+                snap[i] = digest([np.asarray(b.toarray() if sparse.issparse(b) else b) for b in obj.basis])
         return snap
 
     def add_to_pool(self, recipe, live_obj):
@@ -243,11 +280,31 @@ class Run:
     # --- one step ----------------------------------------------------------------------------------
     def apply(self, st, cache, live):
         """performs the operation of step st on the world `cache`; returns the raw result."""
-        get = lambda i: self.build_entry(i, cache, live)
+        if live:
+            def live_get_ephemeral(i):
+                return self.build_entry(i, None, True)
+
+            get = live_get_ephemeral
+        else:
+            get = lambda i: self.build_entry(i, cache, False)
         op = st["op"]
+        if op == "chain":
+            # sub-steps run back to back on the live world's shared objects (temporary objects of one sub-step are dropped
+            # before the next one starts, so a new temporary may live at the same address); in the fresh world every
+            # sub-step gets brand-new objects of its own
+            return [self.apply(sub, None, True) if live else self.apply(sub, {}, False) for sub in st["steps"]]
         if op == "m":
             obj = get(st["on"])
-            return getattr(obj, st["name"])(*st.get("args", []))
+            return getattr(obj, st["name"])(*st.get("args", []), **st.get("kwargs", {}))
+        if op == "csys_q":
+            c = get(st["csys"])
+            if st["name"] == "comp_basis":
+                return c.comp_basis(mode=st["mode"])
+            if st["name"] == "basis":
+                return c.basis()
+            if st["name"] == "get_basis":
+                return c.get_basis(st["i"])
+            return getattr(c, st["name"])
         if op == "with_var":
             obj = get(st["on"])
             c = obj.composite_system
@@ -295,6 +352,19 @@ class Run:
         if op == "warm_bb":
             c = get(st["csys"])
             return c.basis_basisconjugate(tuple(st["index"]))
+        if op == "basis_q":
+            b = get(st["on"])
+            name = st["name"]
+            if name == "getitem":
+                return b[st["i"] % len(b)]
+            if name == "len":
+                return len(b)
+            if name == "to_vect":
+                return b.to_vect(np.array(st["mat"]))
+            return getattr(b, name)()
+        if op == "esys_q":
+            e = get(st["on"])
+            return [bool(e.is_orthonormal_hermitian_0thprop_identity), bool(e.is_hermitian), int(e.dim)]
         if op == "mdist":
             d = get(st["on"])
             if st["name"] == "getitem":
@@ -329,9 +399,40 @@ class Run:
             return self.do_copy_edit(st, get)
         raise ValueError(op)
 
+    def tomo_for(self, st, get):
+        """the pool's tomography object, or - for an `ephemeral` step - one built for this step only and dropped afterwards
+        (a later temporary object may then live at the same address)."""
+        if not st.get("ephemeral"):
+            return get(st["tomo"])
+        r = self.pool[st["tomo"]]
+        testers = [get(t) for t in r["testers"]]
+        saved = Settings.get_atol()
+        try:
+            Settings.set_atol(r.get("born_atol", DEFAULT_ATOL))
+            new = W.build_tomo(r, testers)
+        finally:
+            Settings.set_atol(saved)
+        if get.__name__ != "live_get_ephemeral":
+            return new
+        # fault kind address_reuse (live world only): CPython may give a new object the address of one that has just died.
+        # The allocator cannot be steered, so the reuse is modelled: the previous temporary object - if and only if nothing
+        # but the harness still refers to it, i.e. it would have been freed - becomes the new one (class and attributes
+        # swapped in), so `id()` is the same while the value is the new object's.
+        import sys as _sys
+
+        shell = self._shell
+        if st.get("reuse_address") and shell is not None and _sys.getrefcount(shell) == 3:
+            shell.__class__ = new.__class__
+            shell.__dict__ = new.__dict__
+            self.bump("faults", "address_reuse")
+            self.fault_pending = True
+            return shell
+        self._shell = new
+        return new
+
     def do_estimate(self, st, get):
         est = get(st["estimator"])
-        qt = get(st["tomo"])
+        qt = self.tomo_for(st, get)
         ds = get(st["dataset"])
         seq = [ds] if not st.get("sequence") else [ds, get(st["sequence"])]
         if self.pool[st["estimator"]]["cls"] == "lossmin":
@@ -346,7 +447,7 @@ class Run:
 
     def do_loss_eval(self, st, get):
         loss = get(st["loss"])
-        qt = get(st["tomo"])
+        qt = self.tomo_for(st, get)
         ds = get(st["dataset"])
         lopt = W.build_loss_option(self.pool[st["loss"]]["cls"], st["loss_option"])
         loss.set_from_standard_qtomography_option_data(qt, lopt, ds, True, False)
@@ -421,8 +522,19 @@ class Run:
             return
         if op == "mutate":
             return self.step_mutate(idx, st, sig)
+        if op == "chain":
+            subs = [sub for sub in st["steps"] if all(sub.get(k) is None or 0 <= sub[k] < len(self.pool) for k in ("estimator", "tomo", "dataset", "loss", "algo", "sequence"))]
+            if not subs:
+                return
+            st = dict(st, steps=subs)
+            for sub in subs:
+                for key in ("estimator", "tomo", "dataset", "loss", "algo", "sequence"):
+                    if sub.get(key) is not None:
+                        self.build_entry(sub[key], None, True)
+                self.track_probes(sub, {"op": sub["op"], "name": None, "kind": None})
+            sig = dict(sig, name="+".join(sub["op"] for sub in subs))
         # operands must exist
-        for key in ("on", "csys", "estimator", "tomo", "dataset", "loss", "algo", "sequence", "obj"):
+        for key in ("on", "csys", "estimator", "tomo", "dataset", "loss", "algo", "sequence", "obj", "basis"):
             if key in st and st[key] is not None and not (0 <= st[key] < len(self.pool)):
                 return  # shrunk record: operand disappeared -> no-op
         for i in st.get("ids", []):
@@ -430,7 +542,7 @@ class Run:
                 return
         # make sure the live operands exist before the snapshot
         live_get = lambda i: self.build_entry(i, None, True)
-        for key in ("on", "csys", "estimator", "tomo", "dataset", "loss", "algo", "sequence", "obj"):
+        for key in ("on", "csys", "estimator", "tomo", "dataset", "loss", "algo", "sequence", "obj", "basis"):
             if key in st and st[key] is not None:
                 live_get(st[key])
         for i in st.get("ids", []):
@@ -571,7 +683,7 @@ class Run:
                 if st["table"] in self.deleted_since.get(cid, set()):
                     self.deleted_since[cid].discard(st["table"])
                     self.bump("probes", "table_deleted_then_rebuilt")
-        elif op in ("m", "modfunc", "compose", "estimate", "with_var", "tomo_m", "mdist"):
+        elif op in ("m", "modfunc", "compose", "estimate", "with_var", "tomo_m", "mdist", "basis_q", "esys_q", "csys_q"):
             name = st.get("name") or ""
             if any(self.deleted_since.values()) and ("sparsity" in name or "dict" in name or "proj" in name or op == "estimate"):
                 self.bump("probes", "operation_after_cache_deletion")
@@ -638,6 +750,8 @@ def _strip(c):
     """drops the by-reference argument bookkeeping from a canonical result."""
     if isinstance(c, dict) and "arg_after" in c:
         return {k: v for k, v in c.items() if k not in ("arg_after", "arg_before")}
+    if isinstance(c, list):
+        return [_strip(x) for x in c]
     return c
 
 
@@ -690,13 +804,18 @@ class Generator:
         self.w = {
             "m": 6, "with_var": rngc.choice([1, 3]), "modfunc": rngc.choice([1, 3]), "compose": 2, "tensor": rngc.choice([0.3, 1]), "cache": 0 if self.fault_free else rngc.choice([2, 5, 8]),
             "flip": 0 if self.fault_free else rngc.choice([0, 0.5, 1.5]), "estimate": rngc.choice([0.5, 2, 4]), "loss_eval": rngc.choice([0.5, 2]), "basis_write": 0.4, "copy_edit": 0.7, "rerun": 1.0, "dataset": 0.8,
-            "mdist": 0.8, "tomo_m": 1.5,
+            "mdist": 0.8, "tomo_m": 1.5, "basis_q": 0.8, "csys_q": 0.6, "chain": 0.7,
         }
-        self.focus = "general" if self.fault_free else rngc.choice(["general", "general", "cache", "cache", "estimation", "projection"])
+        self.focus = "general" if self.fault_free else rngc.choice(["general", "general", "cache", "cache", "estimation", "estimation", "projection", "tolerance"])
+        if opts.get("focus"):
+            self.focus = opts["focus"]
         if self.focus == "cache":
-            self.w.update(m=8, modfunc=6, cache=10, estimate=0.3, loss_eval=0.1, tensor=0.1, with_var=1, compose=0.5, flip=0.3, rerun=3, mutate=1.0)
+            self.w.update(m=8, modfunc=6, cache=10, estimate=0.3, loss_eval=0.1, tensor=0.1, with_var=1, compose=0.5, flip=0.3, rerun=3, mutate=1.0, csys_q=2.0)
         elif self.focus == "estimation":
-            self.w.update(m=1, modfunc=0.3, estimate=8, loss_eval=5, cache=2, tensor=0.1, compose=0.3, rerun=3, flip=1.0, dataset=2)
+            self.w.update(m=1, modfunc=0.3, estimate=8, loss_eval=5, cache=2, tensor=0.1, compose=0.3, rerun=3, flip=1.0, dataset=2, chain=4)
+        elif self.focus == "tolerance":
+            # predicates and projections whose answer depends on the process-global tolerance, asked inside and outside flips
+            self.w.update(m=6, basis_q=6, csys_q=1, flip=4, with_var=2, modfunc=1, estimate=0.5, loss_eval=0.2, cache=1, tensor=0.1, compose=0.5, rerun=4, tomo_m=0.5)
         elif self.focus == "projection":
             self.w.update(m=3, with_var=8, modfunc=1, estimate=1, cache=3, rerun=2)
         self.w.setdefault("mutate", 0 if self.fault_free else 0.4)
@@ -761,7 +880,11 @@ class Generator:
             else:
                 arg = rng.randrange(len(self.pool[i].get("vecs") or self.pool[i].get("hss") or [0]))
             return {"op": "m", "on": i, "name": name, "args": [arg], "scribble": (not self.fault_free) and rng.random() < 0.2}
-        return {"op": "m", "on": i, "name": rng.choice(ops.METHODS0[kind]), "scribble": (not self.fault_free) and rng.random() < 0.2}
+        name = rng.choice(ops.METHODS0[kind])
+        st = {"op": "m", "on": i, "name": name, "scribble": (not self.fault_free) and rng.random() < 0.2}
+        if name == "convert_to_comp_basis" and rng.random() < 0.6:
+            st["kwargs"] = {"mode": rng.choice(["row_major", "column_major"])}
+        return st
 
     def g_with_var(self):
         rng = self.rng
@@ -932,7 +1055,7 @@ class Generator:
         t = rng.choice(tomos)
         ds = self.datasets_for(t)
         e = rng.choice(self.ids("estimator"))
-        st = {"op": "estimate", "estimator": e, "tomo": t, "dataset": rng.choice(ds)}
+        st = {"op": "estimate", "estimator": e, "tomo": t, "dataset": rng.choice(ds), "ephemeral": rng.random() < 0.35, "reuse_address": (not self.fault_free) and rng.random() < 0.6}
         if rng.random() < 0.3 and len(ds) >= 2:
             st["sequence"] = rng.choice(ds)
         if self.pool[e]["cls"] == "lossmin":
@@ -944,6 +1067,34 @@ class Generator:
             st["algo_option"] = self.algo_option()
         return st
 
+    def g_chain(self):
+        """2-3 estimations / loss evaluations back to back on one loss object, each with a temporary tomography object."""
+        rng = self.rng
+        subs = []
+        if not self.ids("loss") or not self.ids("algo"):
+            return None
+        loss = rng.choice(self.ids("loss"))
+        algo = rng.choice(self.ids("algo"))
+        ests = [e for e in self.ids("estimator") if self.pool[e]["cls"] == "lossmin"]
+        tomos = [t for t in self.ids("tomo") if self.pool[t]["type"] != "qpt"]
+        if not ests or not tomos:
+            return None
+        qsts = [t for t in tomos if self.pool[t]["type"] == "qst"]
+        if rng.random() < 0.7:
+            fast = [l for l in self.ids("loss") if self.pool[l]["cls"].startswith("fast")]
+            loss = rng.choice(fast or [loss])
+        for k in range(rng.randint(2, 3)):
+            t = qsts[k % len(qsts)] if len(qsts) >= 2 and rng.random() < 0.7 else rng.choice(tomos)
+            ds = self.datasets_for(t)
+            rec = self.pool[t]
+            if rng.random() < 0.65:
+                nvar = {"qst": 3 if rec["para"] else 4, "povmt": 4 if rec["para"] else 8}[rec["type"]]
+                subs.append({"op": "loss_eval", "loss": loss, "tomo": t, "dataset": rng.choice(ds), "loss_option": self.loss_option(self.pool[loss]["cls"], rec), "var": ops.rand_var(rng, nvar, 0.3), "ephemeral": True, "reuse_address": rng.random() < 0.8})
+            else:
+                subs.append({"op": "estimate", "estimator": ests[0], "tomo": t, "dataset": rng.choice(ds), "loss": loss, "algo": algo, "loss_option": self.loss_option(self.pool[loss]["cls"], rec),
+                             "algo_option": self.algo_option(), "ephemeral": True, "reuse_address": rng.random() < 0.8})
+        return {"op": "chain", "steps": subs}
+
     def g_loss_eval(self):
         rng = self.rng
         tomos = [t for t in self.ids("tomo") if self.pool[t]["type"] != "qpt"]
@@ -954,7 +1105,32 @@ class Generator:
         l = rng.choice(self.ids("loss"))
         rec = self.pool[t]
         nvar = {"qst": 3 if rec["para"] else 4, "povmt": 4 if rec["para"] else 8}[rec["type"]]
-        return {"op": "loss_eval", "loss": l, "tomo": t, "dataset": rng.choice(ds), "loss_option": self.loss_option(self.pool[l]["cls"], rec), "var": ops.rand_var(rng, nvar, 0.3)}
+        return {"op": "loss_eval", "loss": l, "tomo": t, "dataset": rng.choice(ds), "loss_option": self.loss_option(self.pool[l]["cls"], rec), "var": ops.rand_var(rng, nvar, 0.3),
+                "ephemeral": rng.random() < 0.35, "reuse_address": (not self.fault_free) and rng.random() < 0.6}
+
+    def g_basis_q(self):
+        rng = self.rng
+        cands = self.ids("basis") + self.ids("esys")
+        if not cands:
+            return None
+        i = rng.choice(cands)
+        if self.pool[i]["kind"] == "esys":
+            return {"op": "esys_q", "on": i}
+        name = rng.choice(["is_orthogonal", "is_orthogonal", "is_normal", "is_hermitian", "is_0thpropI", "is_trace_less", "getitem", "len"])
+        st = {"op": "basis_q", "on": i, "name": name}
+        if name == "getitem":
+            st["i"] = rng.randrange(4)
+        return st
+
+    def g_csys_q(self):
+        rng = self.rng
+        c = 0 if rng.random() < 0.8 else 1
+        r = rng.random()
+        if r < 0.6:
+            return {"op": "csys_q", "csys": c, "name": "comp_basis", "mode": rng.choice(["row_major", "column_major"])}
+        if r < 0.8:
+            return {"op": "csys_q", "csys": c, "name": "get_basis", "i": rng.randrange(4)}
+        return {"op": "csys_q", "csys": c, "name": rng.choice(["dim", "num_e_sys", "is_orthonormal_hermitian_0thprop_identity", "is_basis_hermitian"])}
 
     def g_mdist(self):
         rng = self.rng
@@ -1010,7 +1186,7 @@ class Generator:
         return {"op": "copy_edit", "on": rng.choice([j for j, r in enumerate(self.pool) if r["kind"] in QOP_KINDS])}
 
     def g_rerun(self):
-        cands = [s for s in self.history if s["op"] in ("m", "with_var", "modfunc", "compose", "estimate", "loss_eval", "tomo_m", "mdist")]
+        cands = [s for s in self.history if s["op"] in ("m", "with_var", "modfunc", "compose", "estimate", "loss_eval", "tomo_m", "mdist", "basis_q", "esys_q", "csys_q")]
         if not cands:
             return None
         return copy.deepcopy(self.rng.choice(cands))
